@@ -100,6 +100,26 @@ static inline void v_crash_note(const char *s)
     }
 }
 
+/* ---- watchdog: a transition that does not return within the limit ends the
+ * process with exit code 77; the crash file names the case (the driver then
+ * reports it as a hang of that case) ---- */
+#include <signal.h>
+#include <sys/time.h>
+static inline void v_watchdog_fire(int sig)
+{
+    (void)sig;
+    static const char m[] = "WATCHDOG: the current transition did not return in time\n";
+    if (write(2, m, sizeof(m) - 1) < 0) {
+    }
+    _exit(77);
+}
+static inline void v_watchdog(double seconds)
+{
+    struct itimerval it = {{0, 0}, {(long)seconds, (long)((seconds - (long)seconds) * 1e6)}};
+    signal(SIGALRM, v_watchdog_fire);
+    setitimer(ITIMER_REAL, &it, NULL);
+}
+
 /* ---- byte buffer ---- */
 struct vbuf {
     uint8_t *p;
